@@ -81,36 +81,6 @@ def st_case(draw, leaves, composites, depth=3, with_y=True, nmax=12, max_order=5
     return {"nf": nf, "kernel": spec, "X": X, "Y": Y}
 
 
-def _rounding_scale(info, nodes, pos, K):
-    """Size against which rounding-level identities of node `pos` are judged: max|K| for plain leaves, the magnitude
-    of the Newton-Girard intermediates for additive kernels, propagated through the composition rules."""
-    sub, Xs, Ys = nodes[pos]
-    t = sub["t"]
-    m = float(np.max(np.abs(K))) if np.size(K) else 0.0
-    ch = G.children(sub)
-    if t in ("Subset", "SpinSym", "PartialRBF", "PartialARBF"):
-        ch = [nodes[pos - 1][0]]
-    c = [info[id(o)] for o in ch]
-    if not ch:
-        cs = G.cond_scale(sub, np.vstack([Xs, Ys]) if Ys is not None else Xs, None)
-        rs = max(m, cs or 0.0)
-    elif t == "Sum":
-        rs = c[0][1] + c[1][1]
-    elif t == "Prod":
-        rs = c[0][1] * c[1][0] + c[1][1] * c[0][0]
-    elif t == "Exp":
-        rs = sub["n"] * c[0][0] ** (sub["n"] - 1) * c[0][1]
-    elif t == "SpinSym":
-        rs = 4 * c[0][1]
-    elif t == "SpinSymK":
-        rs = 2 * c[0][1]
-    else:
-        rs = c[0][1]
-    rs = max(rs, m, 1e-300)
-    info[id(sub)] = (m, rs)
-    return rs
-
-
 # =================================================================================================
 # 1. Gram-matrix validity
 
@@ -133,28 +103,35 @@ def gram(case, ctx):
     _events(ctx, spec)
     _nontrivial(ctx, case, spec, X)
     noise_types = {"White", "DensityNoise", "ExpDensityNoise", "FittedDensityNoise"}
-    info = {}  # id(node) -> (max |K|, rounding scale): forward error model for the 1e-12 identities
-    nodes = G.walk(spec, X, Y)
-    for pos, (sub, Xs, Ys) in enumerate(nodes):
+    for sub, Xs, Ys in G.walk(spec, X, Y):
         k = G.build(sub)
+        fam, cf = G.family(sub), G.cfg(sub)
         K = _matrix(ctx, G.guard(ctx, _sig("call", sub), lambda: k(Xs)), (len(Xs), len(Xs)), sub)
         _finite_or_skip(K, sub)
-        scale = _rounding_scale(info, nodes, pos, K)
-        ctx.close(K, K.T, ("symmetry", G.family(sub), G.cfg(sub)), rtol=1e-12, scale=scale, cls=G.cls_name(sub))
+        # rounding-level identities are judged entry by entry against the forward error model of the expression
+        R = G.error_model(sub, Xs, None)[1]
+        if not np.all(np.isfinite(R)):
+            raise Skip()
+        # (never tighter than the plain "relative to the largest entry" of DESIGN 3.5)
+        Rs = np.maximum(np.maximum(R, R.T), max(float(np.max(np.abs(K))), 1e-300))
+        ctx.close(K / Rs, K.T / Rs, ("symmetry", fam, cf), rtol=1e-12, scale=1.0, cls=G.cls_name(sub))
         KXY = _matrix(ctx, G.guard(ctx, _sig("call_xy", sub), lambda: k(Xs, Ys)), (len(Xs), len(Ys)), sub)
         KYX = _matrix(ctx, G.guard(ctx, _sig("call_xy", sub), lambda: k(Ys, Xs)), (len(Ys), len(Xs)), sub)
         _finite_or_skip(KXY, sub)
-        ctx.close(KXY, KYX.T, ("cross_transpose", G.family(sub), G.cfg(sub)), rtol=1e-12,
-                  scale=max(scale, float(np.max(np.abs(KXY)))), cls=G.cls_name(sub))
+        Rc = np.maximum(np.maximum(G.error_model(sub, Xs, Ys)[1], G.error_model(sub, Ys, Xs)[1].T),
+                        max(float(np.max(np.abs(KXY))), float(np.max(np.abs(K))), 1e-300))
+        ctx.close(KXY / Rc, KYX.T / Rc, ("cross_transpose", fam, cf), rtol=1e-12, scale=1.0, cls=G.cls_name(sub))
         d = _matrix(ctx, G.guard(ctx, _sig("diag", sub), lambda: k.diag(Xs)), (len(Xs),), sub, "diag_shape")
-        ctx.close(d, np.diag(K).copy(), ("diag", G.family(sub), G.cfg(sub)), rtol=1e-12, scale=scale, cls=G.cls_name(sub))
+        ctx.close(d / np.diag(Rs), np.diag(K) / np.diag(Rs), ("diag", fam, cf), rtol=1e-12, scale=1.0, cls=G.cls_name(sub),
+                  diag_method=[float(v) for v in d[:4]], diag_of_K=[float(v) for v in np.diag(K)[:4]])
         if not (set(s["t"] for s in G.all_nodes(sub)) & noise_types):
             KXX = G.guard(ctx, _sig("call_xy", sub), lambda: k(Xs, Xs.copy()))
-            ctx.close(KXX, K, ("y_none_equals_y_x", G.family(sub), G.cfg(sub)), rtol=1e-13, scale=scale)
+            ctx.close(KXX / Rs, K / Rs, ("y_none_equals_y_x", fam, cf), rtol=1e-13, scale=1.0)
         w = np.linalg.eigvalsh(0.5 * (K + K.T))
         lmax = max(float(w[-1]), 0.0)
-        ctx.measure("psd", (-float(w[0]) / (1e-9 * lmax)) if lmax > 0 else 0.0)
-        ctx.check(w[0] >= -1e-9 * max(lmax, 1e-300) - 1e-300, ("psd", G.family(sub), G.cfg(sub)),
+        slack = 1e-12 * len(Xs) * float(np.max(Rs))
+        ctx.measure("psd", (-float(w[0]) / (1e-9 * lmax + slack)) if lmax > 0 else 0.0)
+        ctx.check(w[0] >= -1e-9 * max(lmax, 1e-300) - slack, ("psd", fam, cf),
                   lambda_min=float(w[0]), lambda_max=float(w[-1]), cls=G.cls_name(sub))
 
 
@@ -413,10 +390,7 @@ def spin_symmetry(case, ctx):
     k = G.build(spec)
     K0 = G.guard(ctx, ("call", fam, cf), lambda: k(X, Y))
     # rounding scale of the whole expression (exchanging the blocks reorders the sums)
-    info, nodes = {}, G.walk(spec, X, Y)
-    for pos, (sub, Xs, Ys) in enumerate(nodes):
-        rs = _rounding_scale(info, nodes, pos, np.asarray(G.build(sub)(Xs, Ys)))
-    sc = max(float(np.max(np.abs(K0))), rs, 1e-300)
+    sc = max(float(np.max(np.abs(K0))), float(np.max(G.error_model(spec, X, Y)[1])), float(np.max(G.error_model(spec, X, None)[1])), 1e-300)
     for lab, (XX, YY) in {"swapY": (X, Y2), "swapX": (X2, Y), "swapXY": (X2, Y2)}.items():
         ctx.close(G.guard(ctx, ("call", fam, cf), lambda: k(XX, YY)), K0, ("value", fam, lab), rtol=1e-12, scale=sc)
     K1 = k(X)
@@ -524,6 +498,7 @@ def theta_grad(case, ctx):
         ctx.check(bounds.shape[0] == len(theta), ("bounds_shape", fam, cf), got=bounds.shape)
         if len(theta):
             ctx.check(np.all(theta >= bounds[:, 0] - 1e-9) and np.all(theta <= bounds[:, 1] + 1e-9), ("theta_within_bounds", fam, cf))
+        R = G.error_model(sub, Xs, None)[1]
         for i in range(len(theta)):
             def f(step, i=i):
                 k2 = copy.deepcopy(k)
@@ -533,8 +508,9 @@ def theta_grad(case, ctx):
                 return k2(Xs)
 
             an = Gm[:, :, i]
-            fd_check_vec(ctx, f, an, ("fd", fam, cf), 1e-3, rtol=1e-6, atol=1e-13 * float(np.max(np.abs(an))) + 1e-200,
-                         component=i, cls=G.cls_name(sub))
+            # noise floor of the stencil from the conditioning of K itself (additive kernels: Newton-Girard cancellation)
+            fd_check_vec(ctx, f, an, ("fd", fam, cf), 1e-3, rtol=1e-6,
+                         atol=1e-13 * float(np.max(np.abs(an))) + 1e-200 + 4e-14 * R / 1e-3, component=i, cls=G.cls_name(sub))
 
 
 # =================================================================================================
@@ -577,8 +553,11 @@ def _input_grad_node(ctx, sub, Xs, Ys):
     kk, dk = G.guard(ctx, ("k_and_deriv", fam, cf), lambda: k.k_and_deriv(Xs, Ys))
     kk, dk = np.asarray(kk), np.asarray(dk)
     _finite_or_skip(dk, sub)
-    vs = max(float(np.max(np.abs(KY))), G.cond_scale(sub, Xs, Ys) or 0.0, 1e-300)
-    ctx.close(kk, KY, ("value", fam, cf), rtol=1e-13, scale=vs, cls=G.cls_name(sub))
+    R = np.maximum(G.error_model(sub, Xs, Ys)[1], max(float(np.max(np.abs(KY))), 1e-300))
+    if kk.shape == KY.shape:
+        ctx.close(kk / R, KY / R, ("value", fam, cf), rtol=1e-13, scale=1.0, cls=G.cls_name(sub))
+    else:
+        ctx.close(kk, KY, ("value", fam, cf), rtol=1e-13, cls=G.cls_name(sub))
     want_shape = (len(Xs), len(Ys), Xs.shape[1])
     ctx.check(np.shape(dk) == want_shape, ("gradient_shape", fam, cf), got=np.shape(dk), want=want_shape, cls=G.cls_name(sub))
     amax = float(np.max(np.abs(dk))) if dk.size else 0.0
@@ -590,10 +569,11 @@ def _input_grad_node(ctx, sub, Xs, Ys):
             Xp[:, fcol] = Xs[:, fcol] + np.broadcast_to(step, (len(Xs), 1))[:, 0]
             return k(Xp, Ys)
 
-        fd_check_vec(ctx, f, dk[:, :, fcol], ("fd", fam, cf), h, rtol=1e-6, atol=1e-13 * amax + 1e-200,
+        fd_check_vec(ctx, f, dk[:, :, fcol], ("fd", fam, cf), h, rtol=1e-6, atol=1e-13 * amax + 1e-200 + 4e-14 * R / h,
                      feature=fcol, cls=G.cls_name(sub))
     k0, dk0 = G.guard(ctx, ("k_and_deriv_y_none", fam, cf), lambda: k.k_and_deriv(Xs))
-    ctx.close(k0, k(Xs), ("y_none_value", fam, cf), rtol=1e-13, scale=max(float(np.max(np.abs(k0))), G.cond_scale(sub, Xs, Xs) or 0.0, 1e-300))
+    R0 = np.maximum(G.error_model(sub, Xs, None)[1], max(float(np.max(np.abs(k0))), 1e-300))
+    ctx.close(np.asarray(k0) / R0, np.asarray(k(Xs)) / R0, ("y_none_value", fam, cf), rtol=1e-13, scale=1.0)
     if not any(s_["t"] == "White" for s_ in G.all_nodes(sub)):
         # (a white-noise factor is delta_ij for Y=None and zero for an explicit Y: the two calls differ by design)
         k1, dk1 = G.guard(ctx, ("k_and_deriv", fam, cf), lambda: k.k_and_deriv(Xs, Xs.copy()))
